@@ -9,6 +9,7 @@ kinds: temp  (x = A op B  ->  _t = A; x = _t op B)
        ifexp (x = a if c else b  ->  if c: x = a / else: x = b)
        fnrename (module-level private function _f renamed to _f_rn at its definition and at every use in its module)
        addkw (every library function gains a keyword-only parameter `_probe=None`)
+       cmpflip (a < b -> b > a, a >= b -> b <= a, a == b -> b == a for single comparisons)
 usage: tools/refactor_probe.py <props|all> kind[,kind...] [file.py ...]
 """
 import ast, os, shutil, subprocess, sys, tempfile
@@ -97,6 +98,19 @@ class T(ast.NodeTransformer):
         return node
 
 
+class CmpFlip(ast.NodeTransformer):
+    def visit_Compare(self, node):
+        self.generic_visit(node)
+        if len(node.ops) == 1:
+            flip = {ast.Lt: ast.Gt, ast.Gt: ast.Lt, ast.LtE: ast.GtE, ast.GtE: ast.LtE, ast.Eq: ast.Eq, ast.NotEq: ast.NotEq}
+            t = type(node.ops[0])
+            if t in flip:
+                node.left, node.comparators = node.comparators[0], [node.left]
+                node.ops = [flip[t]()]
+                count["cmpflip"] += 1
+        return node
+
+
 def fnrename(tree):
     priv = {st.name for st in tree.body if isinstance(st, ast.FunctionDef) and st.name.startswith("_") and not st.name.startswith("__")}
     # names also bound otherwise (assigned, imported) or used as strings are left alone
@@ -140,6 +154,10 @@ for root in ("sasmodels", "sasmodels/custom"):
             renamed_private[f] = fnrename(tree)
         if "addkw" in kinds:
             addkw(tree)
+        if "cmpflip" in kinds:
+            for st in tree.body:
+                if isinstance(st, (ast.FunctionDef, ast.ClassDef)):
+                    CmpFlip().visit(st)
         tree = T().visit(tree)
         ast.fix_missing_locations(tree)
         open(p, "w").write(ast.unparse(tree) + "\n")
